@@ -85,10 +85,12 @@ PERTURB = {
     "nonl": "src/lib.rs: the final newline is removed",
     "cmt": "src/lib.rs: a `//` comment line is appended (token-equivalent Rust)",
     "blank": "src/lib.rs: a blank line is inserted after the first line (token-equivalent Rust)",
-    "tomlcmt": "generated Cargo.toml: a `#` comment line is appended (equivalent TOML)",
     "diagnl": "diagnostics file: the final newline is removed",
     "flip": "src/lib.rs: one ASCII letter inside the last line that has one changes case (same size, last partial block)",
 }
+# NOT a perturbation: a comment (or any other edit) in the generated Cargo.toml. pavexc reads the existing manifest with
+# toml_edit, overwrites `dependencies` and `edition`, and writes the document back: the manifest is a merge target by design, a
+# comment survives a regeneration and `--check` rightly exits 0 (first version of this batch raised two false alarms on it).
 PT_OPS = [f"pt:{k}" for k in PERTURB]
 
 
@@ -285,7 +287,7 @@ class Project:
     def perturb(self, kind):
         """Edit an output file in place (see PERTURB). Returns the name of the file whose bytes changed, or None."""
         fl = self.files()
-        which = {"tomlcmt": "manifest", "diagnl": "diag"}.get(kind, "lib")
+        which = {"diagnl": "diag"}.get(kind, "lib")
         path = fl[which]
         try:
             with open(path, "rb") as f:
@@ -301,8 +303,6 @@ class Project:
         elif kind == "blank":
             i = data.find(b"\n")
             new = data[:i + 1] + b"\n" + data[i + 1:] if i >= 0 else data
-        elif kind == "tomlcmt":
-            new = data + (b"" if data.endswith(b"\n") else b"\n") + b"# reviewed\n"
         elif kind == "flip":
             new = data
             for i in range(len(data) - 1, -1, -1):
